@@ -209,6 +209,7 @@ void Value::do_add() {
     if (!get_arith_uint256(Value(args[0]), a)) return;
     if (!get_arith_uint256(Value(args[1]), b)) return;
     if (args.size() == 3 && !get_arith_uint256(Value(args[2]), g)) return;
+    if (!g.EqualTo(0)) { a = a % g; b = b % g; } // add() subtracts the modulus at most once: it expects reduced operands
     add(data, a, b, g);
 }
 
@@ -219,6 +220,7 @@ void Value::do_sub() {
     if (!get_arith_uint256(Value(args[0]), a)) return;
     if (!get_arith_uint256(Value(args[1]), b)) return;
     if (args.size() == 3 && !get_arith_uint256(Value(args[2]), g)) return;
+    if (!g.EqualTo(0)) { a = a % g; b = b % g; } // add() subtracts the modulus at most once: it expects reduced operands
     // a - b = a + (-b); with a modulus the additive inverse of b is g - b, not 2^256 - b
     b = g.EqualTo(0) ? -b : g - b;
     add(data, a, b, g);
